@@ -12,7 +12,6 @@ import PharmpyModel.C13.Number
 namespace Pharmpy.C13
 
 inductive RErr where
-  | reError          -- re.error: '[' + ignore_character + ']' is not a valid character class
   | spaceTab         -- DatasetError: TAB preceded by a space
   | blankLine        -- DatasetError: blank lines
   | emptyData        -- pandas EmptyDataError: no rows
@@ -38,8 +37,9 @@ def dropBlank : Str → Str
   | [] => []
   | c :: r => if c = ' ' || c = '\t' then dropBlank r else c :: r
 
-/-- Does the comment regexp match this newline-terminated line?
-    `@`: `^[ \t]*[A-Za-z#@].*\n`, otherwise `^[c].*\n`. -/
+/-- Does the comment regexp match this line?
+    `@`: `^[ \t]*[A-Za-z#@].*(\n|$)`, otherwise `^[` + re.escape(c) + `].*(\n|$)`
+    (any character `c` is a legal class member once escaped). -/
 def isComment (ic : Char) (line : Str) : Bool :=
   if ic = '@' then
     match dropBlank line with
@@ -52,25 +52,26 @@ def isComment (ic : Char) (line : Str) : Bool :=
 
 def isBlankLine (l : Str) : Bool := l.all (fun c => c = ' ' || c = '\t')
 
-/-- `re.search(r'^[ \t]*\n$', contents, re.MULTILINE)` over the terminated
-    lines `ls` followed by the unterminated remainder `last`: a blank
-    terminated line whose newline is followed by the end of the text or by
-    another newline. -/
-def blankHit : List Str → Str → Bool
-  | [], _ => false
-  | [l], last => isBlankLine l && last.isEmpty
-  | l :: l2 :: rest, last => (isBlankLine l && l2.isEmpty) || blankHit (l2 :: rest) last
+/-- `re.search(r'^[ \t]*\n', contents, re.MULTILINE)`: some newline-terminated line
+    consists of blanks only. -/
+def blankHit (term : List Str) : Bool := term.any isBlankLine
 
-/-- NMTRANDataIO.__init__: returns the lines pandas will iterate over. -/
+/-- newline-terminated lines left by `re.sub(comment_regexp, '', contents)` -/
+def keptTerm (ic : Char) (contents : Str) : List Str :=
+  (splitNl contents).dropLast.filter (fun l => !isComment ic l)
+
+/-- the unterminated remainder left by the substitution (empty if it was a comment) -/
+def keptLast (ic : Char) (contents : Str) : Str :=
+  let last0 := (splitNl contents).getLast?.getD []
+  if isComment ic last0 then [] else last0
+
+/-- NMTRANDataIO.__init__: returns the lines pandas will iterate over.
+    `(\n|$)`: a comment is removed whether or not a newline ends it, so the
+    unterminated remainder of the text is filtered like every other line. -/
 def prefilter (ic : Char) (contents : Str) : Except RErr (List Str) :=
-  if ic = '^' || ic = '\\' then .error .reError else
-  let segs := splitNl contents
-  let term := segs.dropLast
-  let last := segs.getLast?.getD []
-  let term' := term.filter (fun l => !isComment ic l)
-  if term'.any (fun l => !noSpTab l) || !noSpTab last then .error .spaceTab
-  else if blankHit term' last then .error .blankLine
-  else .ok (term' ++ (if last.isEmpty then [] else [last]))
+  if (keptTerm ic contents).any (fun l => !noSpTab l) || !noSpTab (keptLast ic contents) then .error .spaceTab
+  else if blankHit (keptTerm ic contents) then .error .blankLine
+  else .ok (keptTerm ic contents ++ (if (keptLast ic contents).isEmpty then [] else [keptLast ic contents]))
 
 /-! ### pandas.read_table, python engine -/
 
